@@ -312,6 +312,10 @@ def build():
     u.emit(mk, vis='pub')
     u.text('}\n}')
 
+    # key / kind helpers a change may introduce next to the builder methods: pure methods of the key types are reasoned about by their bodies
+    from vf.unit import pull_pure_type_helpers
+    for ty_, known_ in (('BinOpKind', ()), ('MulAddKey', ('new',)), ('HornerAccKey', ('new',))):
+        u.text(pull_pure_type_helpers(u, E, ty_, known_))
     IMPL = r'impl<F> ExpressionBuilder<F>'
     fns = []
 
